@@ -175,13 +175,38 @@ theorem step_abs (s : St α) (h : WF s) (o : Op α) :
     cases hc : s.cons with
     | idle =>
       have hac := abs_cons_idle s hc
+      by_cases hcan : s.get s.slot = .cancelled
+      · -- the cancelled future is replaced by a pending one, on which the consumer then waits
+        obtain ⟨hwf', habs'⟩ := install_abs s h (.pending : Fut α)
+        have hg : (s.install (.pending : Fut α)).get (s.install (.pending : Fut α)).slot = .pending := by
+          rw [← abs_slot, habs']
+        have hci : (s.install (.pending : Fut α)).cons = .idle := by simpa [St.install] using hc
+        have h1 : step s .next =
+            ({ s.install (.pending : Fut α) with cons := .waiting (s.install (.pending : Fut α)).slot }, []) := by
+          simp [step, hc, hcan, hg, Fut.done]
+        have h2 : astep (abs s) .next =
+            ({ ({ abs s with slot := .pending } : A α) with cons := .onSlot }, []) := by
+          simp [astep, hac, abs_slot, hcan, Fut.done]
+        rw [h1, h2]
+        refine ⟨⟨hwf'.1, ?_⟩, ?_, rfl⟩
+        · intro f hf
+          simp only [Cons.waiting.injEq] at hf
+          subst hf; exact hwf'.1
+        · apply A.ext'
+          · show (abs (s.install (.pending : Fut α))).slot = _
+            rw [habs']
+          · rfl
+          · exact abs_cons_slot _ rfl
       by_cases hd : (s.get s.slot).done = true
-      · have h1 : step s .next = finish s s.slot := by simp [step, hc, hd]
-        have h2 : astep (abs s) .next = afinishSlot (abs s) := by simp [astep, hac, abs_slot, hd]
+      · have h1 : step s .next = finish s s.slot := by
+          cases hg : s.get s.slot <;> simp_all [step]
+        have h2 : astep (abs s) .next = afinishSlot (abs s) := by
+          cases hg : s.get s.slot <;> simp_all [astep, abs_slot]
         rw [h1, h2]; exact finish_slot_abs s h hd
-      · have h1 : step s .next = ({ s with cons := .waiting s.slot }, []) := by simp [step, hc, hd]
+      · have h1 : step s .next = ({ s with cons := .waiting s.slot }, []) := by
+          cases hg : s.get s.slot <;> simp_all [step]
         have h2 : astep (abs s) .next = ({ abs s with cons := .onSlot }, []) := by
-          simp [astep, hac, abs_slot, hd]
+          cases hg : s.get s.slot <;> simp_all [astep, abs_slot]
         rw [h1, h2]
         refine ⟨⟨h.1, ?_⟩, ?_, rfl⟩
         · intro f hf
